@@ -75,6 +75,7 @@ type rpcRec struct {
 	ctx       context.Context
 
 	InvokeDone bool
+	InvokeWriteFailed bool // a transport write issued by this Invoke failed
 	InvokeErr  error
 	RespOK     bool
 	atCancel   map[string]blockedCall // calls of this rpc that were blocked when its context was cancelled
@@ -447,9 +448,16 @@ func (x *e1) runClientRPC(r *rpcRec) {
 		in := &Msg{B: x.reqBytes(spec)}
 		out := &Msg{}
 		var err error
+		failedBefore := 0
+		if x.cep != nil {
+			failedBefore = x.cep.FailedBy[taskName()]
+		}
 		r.C.InCall++
 		x.call(fmt.Sprintf("Invoke rpc%d", spec.Idx), func() { err = x.cli.Invoke(ctx, spec.Name(), x.enc, in, out) })
 		r.C.InCall--
+		if x.cep != nil && x.cep.FailedBy[taskName()] > failedBefore {
+			r.InvokeWriteFailed = true
+		}
 		r.InvokeDone, r.InvokeErr = true, err
 		x.d.Record(taskName(), "invoke-return", fmt.Sprintf("rpc%d %s", spec.Idx, errStr(err)))
 		if err == nil {
